@@ -286,7 +286,8 @@ func (route *baseRoute) delDestination(index int, extendConfig baseCfgExtender) 
 		return fmt.Errorf("cannot remove the last destination of consistentHashing route %q", route.key)
 	}
 	conf.Dests()[index].Shutdown()
-	newDests := append(conf.Dests()[:index], conf.Dests()[index+1:]...)
+	// the capacity is capped so that append copies into a fresh array: concurrent Dispatch calls still read the old one
+	newDests := append(conf.Dests()[:index:index], conf.Dests()[index+1:]...)
 	newConf := extendConfig(baseConfig{*conf.Matcher(), newDests})
 	route.config.Store(newConf)
 	return nil
